@@ -269,7 +269,7 @@ Lemma item_desc fo sp d : desc_ok d = true ->
   item_res fo sp None (IDesc d) (spec_desc sp d) None.
 Proof.
   destruct d as [k l sym]. unfold desc_ok. cbn [d_kind d_label d_sym]. intros H.
-  apply andb_prop in H. destruct H as [H Hs]. apply andb_prop in H. destruct H as [K L].
+  apply andb_prop in H. destruct H as [K L].
   unfold item_res, render_item, desc_text. cbn [d_sym d_kind d_label].
   destruct sym as [b|].
   - exists (mk (MDescEnd (k :: l)) sp (Some (border b)) (s_clean sp ++ [bchar b])). split; [|split; [exact I|]].
@@ -288,7 +288,7 @@ Lemma item_lead fo sp d : desc_ok d = true -> s_n sp = 0 ->
   item_res fo sp None (ILead d) (spec_desc sp d) None.
 Proof.
   destruct d as [k l sym]. unfold desc_ok. cbn [d_kind d_label d_sym]. intros H N.
-  apply andb_prop in H. destruct H as [H Hs]. apply andb_prop in H. destruct H as [K L].
+  apply andb_prop in H. destruct H as [K L].
   unfold item_res, render_item, desc_text. cbn [d_sym d_kind d_label].
   destruct sym as [b|].
   - exists (top (spec_desc sp {| d_kind := k; d_label := l; d_sym := Some b |}) None). split; [|split; [exact I|reflexivity]].
